@@ -1,11 +1,248 @@
 import SageModel.Proto
+import SageModel.Generated.Consts
+import SageModel.Model.C06
 
-/-! Driver ops for C06 (stub: no ops yet). -/
+/-! Driver ops for C06.
+
+```
+modkey <key:hex utf-8>
+   | ok <kind 0..4> <0 | 1 residue> <display:hex>  |  err:empty | err:residue <code point> | err:toolong
+        kind: 0 PeptideN(^) 1 PeptideC($) 2 ProteinN([) 3 ProteinC(]) 4 Residue
+
+apply <pos 0..3> <seq:hex> <max> <nvar> {<key:hex> <nmass> <f32>*} <nstatic> {<key:hex> <f32>}
+   | err:invalid
+   | ok <k> <static request index>*k <nforms> {<0|1 f32> <len> <f32>*len <0|1 f32> <f32 mono>}
+        pos: 0 Nterm 1 Cterm 2 Full 3 Internal.  The k indices are the iteration order of the
+        validated static-mod HashMap (random per process). Forms are sorted by their token lists.
+
+dbforms <seq:hex> <max> <f32 lo> <f32 hi> <vars as above> <statics as above>
+   | ok <nforms> {form as above} <nall> {form}
+        (Parameters::digest on a one-protein FASTA, whole protein = one peptide, Position::Full; sorted and
+         de-duplicated; first with the bounds [lo, hi], then with [-inf, +inf])
+```
+All float comparisons are bit-exact (only `+` in a fixed order is involved).
+-/
 namespace Sage.C06
 open Sage.Proto
 
+/-- key bytes → code points (`none` if not UTF-8) -/
+def codePoints (b : List UInt8) : Option (List Nat) :=
+  (String.fromUTF8? (ByteArray.mk b.toArray)).map fun s => s.toList.map Char.toNat
+
+def key : P (List Nat) := do
+  let b ← bytes
+  match codePoints b with
+  | some k => pure k
+  | none => failure
+
+def position : P Position := do
+  let n ← nat
+  match n with
+  | 0 => pure .nterm
+  | 1 => pure .cterm
+  | 2 => pure .full
+  | 3 => pure .internal
+  | _ => failure
+
+def varMods : P (List (List Nat × List Nat)) := list (do let k ← key; let ms ← list nat; pure (k, ms))
+def staticMods : P (List (List Nat × Nat)) := list (do let k ← key; let m ← nat; pure (k, m))
+
+def f32b (b : Nat) : Float32 := Float32.ofBits b.toUInt32
+def H2Of : Float32 := f32b Sage.Gen.H2O_bits
+def tableF : List Float32 := Sage.Gen.MONOISOTOPIC_bits.map f32b
+
+/-- a form on the wire: `<0|1 f32> <len> <f32>* <0|1 f32> <f32 mono>` as numbers -/
+def formToks (p : Peptide Float32) : List Nat :=
+  let o : Option Float32 → List Nat := fun
+    | none => [0]
+    | some x => [1, x.toBits.toNat]
+  o p.nterm ++ [p.mods.length] ++ p.mods.map (·.toBits.toNat) ++ o p.cterm ++ [p.mono.toBits.toNat]
+
+def lexLe : List Nat → List Nat → Bool
+  | [], _ => true
+  | _ :: _, [] => false
+  | a :: as, b :: bs => a < b || (a == b && lexLe as bs)
+
+def renderForms (fs : List (Peptide Float32)) (dedupe : Bool := false) : String :=
+  let toks := (fs.map formToks).mergeSort lexLe
+  let toks := if dedupe then toks.eraseDups else toks
+  " ".intercalate (toString toks.length :: toks.map fun t => " ".intercalate (t.map toString))
+
+structure WireForm where
+  nterm : Option Nat
+  mods : List Nat
+  cterm : Option Nat
+  mono : Nat
+
+def wireForm : P WireForm := do
+  let n ← opt nat
+  let m ← list nat
+  let c ← opt nat
+  let mono ← nat
+  pure { nterm := n, mods := m, cterm := c, mono := mono }
+
+def optRat : Option Nat → Option (Option Rat)
+  | none => some none
+  | some b => (ratOfF32Bits b).map some
+
+def allSome {β : Type} : List (Option β) → Option (List β)
+  | [] => some []
+  | none :: _ => none
+  | some x :: xs => (allSome xs).map (x :: ·)
+
+/-- exact rational reading of an observed form (`none` if some value is not finite) -/
+def WireForm.toRat (w : WireForm) : Option (Form × Rat) := do
+  let n ← optRat w.nterm
+  let m ← allSome (w.mods.map ratOfF32Bits)
+  let c ← optRat w.cterm
+  let mono ← ratOfF32Bits w.mono
+  pure ({ nterm := n, mods := m, cterm := c }, mono)
+
+def absRat (x : Rat) : Rat := if x < 0 then -x else x
+
+/-- rounding allowance for the f32 evaluation of the mass formula: `k` additions, each with relative
+    error ≤ 2⁻²⁴ on a partial sum bounded by `S = Σ|operand|`; stated with a factor 2 of slack -/
+def massAllowance (seq : List Nat) (f : Form) : Rat :=
+  let ops : Rat := ((2 * seq.length + 4 : Nat) : Rat)
+  let s : Rat := Sage.Gen.H2O + sumRat (seq.map (monoisotopic Sage.Gen.MONOISOTOPIC))
+    + sumRat (f.mods.map absRat) + absRat (f.nterm.getD 0) + absRat (f.cterm.getD 0)
+  (ops + 1) * s / 8388608
+
+/-- the executable spec on observed forms (enumeration clauses + mass formula) -/
+def formsVerdict (seq : List Nat) (pos : Position) (varsQ staticsQ : List (Target × Rat)) (max : Nat)
+    (got : List (Form × Rat)) (strict : Bool) : String :=
+  let want := refForms seq pos varsQ staticsQ max
+  let v := enumVerdict want (got.map (·.1)) strict
+  if v != "ok" then v else
+  match got.find? (fun fm => decide (absRat (fm.2 - refMass seq fm.1) > massAllowance seq fm.1)) with
+  | some _ => "bad:mass_formula"
+  | none => "ok"
+
+def ratMods (l : List (Target × Nat)) : Option (List (Target × Rat)) :=
+  allSome (l.map fun tm => (ratOfF32Bits tm.2).map fun q => (tm.1, q))
+
 def handle (op : String) (args impl : List String) : Option Reply :=
   match op with
+  | "modkey" => do
+    let k ← run key args
+    let dispHex := fun (t : Target) => hex (String.ofList (t.display.map Char.ofNat)).toUTF8.toList
+    let (model, _) : String × Option Target :=
+      match fromStr k with
+      | .ok t =>
+        let (kind, r) : Nat × Option Nat := match t with
+          | .peptideN r => (0, r) | .peptideC r => (1, r) | .proteinN r => (2, r) | .proteinC r => (3, r)
+          | .residue r => (4, some r)
+        (s!"ok {kind} {outOpt toString r} {dispHex t}", some t)
+      | .error .empty => ("err:empty", none)
+      | .error (.invalidResidue c) => (s!"err:residue {c}", none)
+      | .error .tooLong => ("err:toolong", none)
+    -- the spec on the implementation's reply: accepted exactly the documented keys, with their meaning
+    let got : Option (Option Target) :=
+      match impl with
+      | "ok" :: rest =>
+        match runPrefix (do let kind ← nat; let r ← opt nat; pure (kind, r)) rest with
+        | some ((0, r), _) => some (some (.peptideN r))
+        | some ((1, r), _) => some (some (.peptideC r))
+        | some ((2, r), _) => some (some (.proteinN r))
+        | some ((3, r), _) => some (some (.proteinC r))
+        | some ((4, some r), _) => some (some (.residue r))
+        | _ => none
+      | t :: _ => if t.startsWith "err:" then some none else none
+      | [] => none
+    let spec := match got with
+      | some g => keyVerdict k g
+      | none => "bad:reply_unreadable"
+    pure (exact model (" ".intercalate impl) spec)
+  | "apply" => do
+    let (pos, seq, max, vars, statics) ← run (do
+      let pos ← position; let seq ← bytes; let max ← nat; let v ← varMods; let s ← staticMods
+      pure (pos, seq.map (·.toNat), max, v, s)) args
+    -- validated modifications (invalid keys are dropped, as `validate_mods` does)
+    let varsV : List (Target × Nat) := validateVar vars
+    let staticsIdx : List (List Nat × (Nat × Nat)) := (statics.zipIdx).map fun (km, i) => (km.1, (i, km.2))
+    let staticsV : List (Target × (Nat × Nat)) := validate staticsIdx
+    let validIdx := staticsV.map (·.2.1)
+    let disjoint := staticsDisjoint seq pos staticsV
+    -- the implementation reports the iteration order of its static-mod HashMap
+    let implOrder : Option (List Nat) :=
+      match impl with
+      | "ok" :: rest => (runPrefix (list nat) rest).map (·.1)
+      | _ => none
+    let isPerm (o : List Nat) : Bool := o.length == validIdx.length && validIdx.all o.contains && o.all validIdx.contains
+    let echoOrder : List Nat := match implOrder with
+      | some o => if isPerm o then o else validIdx
+      | none => validIdx
+    -- non-overlapping static mods: the model uses the REQUEST order (the result must not depend on
+    -- the map's order); overlapping ones: first writer wins, so the model follows the reported order
+    let useOrder := if disjoint then validIdx else echoOrder
+    let staticsOrdered : List (Target × Nat) :=
+      useOrder.filterMap fun i => (staticsV.find? (·.2.1 == i)).map fun tm => (tm.1, tm.2.2)
+    let varsF := varsV.map fun tm => (tm.1, f32b tm.2)
+    let staticsF := staticsOrdered.map fun tm => (tm.1, f32b tm.2)
+    let model : String :=
+      match tryFrom H2Of tableF pos seq with
+      | none => "err:invalid"
+      | some p => s!"ok {outList toString echoOrder} {renderForms (apply p varsF staticsF max)}"
+    -- spec on the implementation's reply
+    let seqValid := seq.all fun c => Sage.Gen.VALID_AA.contains c
+    let spec : String :=
+      match impl with
+      | ["err:invalid"] => if seqValid then "bad:valid_sequence_rejected" else "ok"
+      | "ok" :: rest =>
+        if !seqValid then "bad:invalid_sequence_accepted" else
+        match run (do let _ ← list nat; list wireForm) rest with
+        | none => "bad:reply_unreadable"
+        | some wfs =>
+          match allSome (wfs.map WireForm.toRat), ratMods varsV, ratMods (staticsOrdered) with
+          | some got, some varsQ, some staticsQ =>
+            if !disjoint then "na" else
+            if varsQ.any (·.2 == 0) || staticsQ.any (·.2 == 0) then "na" else
+            let strict := nodupB (specCands seq pos varsQ)
+            let v := formsVerdict seq pos varsQ staticsQ max got strict
+            if v != "ok" then v else if strict then "ok" else "na"
+          | _, _, _ => "na"
+      | _ => "bad:reply_unreadable"
+    pure (exact model (" ".intercalate impl) spec)
+  | "dbforms" => do
+    let (seq, max, lo, hi, vars, statics) ← run (do
+      let seq ← bytes; let max ← nat; let lo ← nat; let hi ← nat; let v ← varMods; let s ← staticMods
+      pure (seq.map (·.toNat), max, lo, hi, v, s)) args
+    let varsV : List (Target × Nat) := validateVar vars
+    let staticsV : List (Target × Nat) := validate statics
+    let disjoint := staticsDisjoint seq .full staticsV
+    let varsF := varsV.map fun tm => (tm.1, f32b tm.2)
+    let staticsF := staticsV.map fun tm => (tm.1, f32b tm.2)
+    -- `Builder::make_parameters` clamps `max_variable_mods` to at least 1
+    let max := if max == 0 then 1 else max
+    let ninf : Float32 := f32b 4286578688
+    let pinf : Float32 := f32b 2139095040
+    let model := "ok " ++ renderForms (dbForms H2Of tableF .full seq varsF staticsF max (f32b lo) (f32b hi)) true
+      ++ " " ++ renderForms (dbForms H2Of tableF .full seq varsF staticsF max ninf pinf) true
+    let spec : String :=
+      if !disjoint then "na" else
+      match impl with
+      | "ok" :: rest =>
+        match run (do let a ← list wireForm; let b ← list wireForm; pure (a, b)) rest with
+        | none => "bad:reply_unreadable"
+        | some (kept, all) =>
+          -- range clause, exact, on the implementation's own f32 masses: what enters the database with
+          -- bounds [lo, hi] is what enters without bounds, restricted to lo ≤ mass ≤ hi (inclusive)
+          let toks (w : WireForm) : List Nat :=
+            (match w.nterm with | none => [0] | some x => [1, x]) ++ [w.mods.length] ++ w.mods ++
+            (match w.cterm with | none => [0] | some x => [1, x]) ++ [w.mono]
+          let inRange (w : WireForm) : Bool :=
+            decide (f32b lo ≤ f32b w.mono) && decide (f32b w.mono ≤ f32b hi)
+          if (all.filter inRange).map toks != kept.map toks then "bad:range_filter" else
+          match allSome (all.map WireForm.toRat), ratMods varsV, ratMods staticsV with
+          | some got, some varsQ, some staticsQ =>
+            if varsQ.any (·.2 == 0) || staticsQ.any (·.2 == 0) then "na" else
+            if !(seq.all fun c => Sage.Gen.VALID_AA.contains c) then
+              (if got.isEmpty then "ok" else "bad:invalid_sequence_accepted") else
+            -- the database merges equal forms: compare with the reference enumeration as sets
+            formsVerdict seq .full varsQ staticsQ max got false
+          | _, _, _ => "na"
+      | _ => "bad:reply_unreadable"
+    pure (exact model (" ".intercalate impl) spec)
   | _ => none
 
 end Sage.C06
